@@ -52,6 +52,8 @@ def handle (l : Line) : Option (Except String String) :=
   | "httpw.announce" => some (opAnnounce l)
   | "httpw.scrape" => some (opScrape l)
   | "httpw.error" => some (opError l)
+  -- a request turned away because Stop has begun (D36) is answered like any failure that is not the client's fault
+  | "httpw.turned_away" => some (pure "body=GENERIC logic_calls=0\tturned-away")
   | _ => none
 
 end DHttpWrite
